@@ -18,7 +18,7 @@ from unittest import mock
 
 from common import q, lst, natlit, zlit, blit
 
-IMPORTS = "From Verif Require Import model.Base model.Fetch.\nOpen Scope Q_scope.\n"
+IMPORTS = "From Verif Require Import model.Base model.Fetch.\nFrom Coq Require Import Qabs.\nOpen Scope Q_scope.\n"
 
 PRELUDE = r"""
 Definition pz_eqb (a b : nat * Z) : bool := Nat.eqb (fst a) (fst b) && Z.eqb (snd a) (snd b).
@@ -45,6 +45,11 @@ Definition chk_s (c : s_case) : bool :=
   let '(evs, ipolls) := c in
   let '(st, e) := run Sim init evs in
   list_eqb poll_eqb (polls st) ipolls && opt_eqb err_eqb e None.
+(* elapsed times handed to the simulator by the blackbox backend vs mono_fix of the table's (exact rationals of
+   the floats; the code adds 0.01 and subtracts the resume offset in binary64: compared up to 1e-9) *)
+Definition fix_case := (list Q * list Q)%type.
+Definition Qclose (a b : Q) : bool := Qleb (Qabs (a - b)) (1 # 1000000000).
+Definition chk_fix (c : fix_case) : bool := let '(raw, impl) := c in list_eqb Qclose (mono_fix raw) impl.
 (* tabular resume: checkpointing, paused level, table rows (level, payload), implementation rows *)
 Definition zz_eqb (a b : Z * Z) : bool := Z.eqb (fst a) (fst b) && Z.eqb (snd a) (snd b).
 Definition tab_case := (bool * option Z * list (Z * Z) * list (Z * Z))%type.
@@ -110,6 +115,8 @@ def ev_chunk(e):
                                    lst(["(%s, %s)" % ({"CONTINUE": "CONT"}.get(d, d), natlit(l)) for d, l in e[2]]))
     if e[0] == "fetch" and len(e) > 2 and e[2]:
         return "fetch2 %s %s" % (lst([natlit(i) for i in e[1]]), mids_t(e[2]))
+    if e[0] == "half":
+        return "[]"     # an unterminated line is not read: nothing happens for the backend
     return "[" + ev_t(e) + "]"
 
 
@@ -164,7 +171,7 @@ def gen_raw_ops(rng):
     ops, ntr, runs = [], 0, {}
     marks = {}
     for _ in range(rng.randint(4, 28)):
-        kinds = ["emit"] * 5 + ["fetch"] * 6 + ["finish", "fail", "pause", "pause", "stop", "resume", "resume", "resume"]
+        kinds = ["emit"] * 5 + ["fetch"] * 6 + ["finish", "fail", "pause", "pause", "stop", "resume", "resume", "resume", "half"]
         if ntr < ntr_max:
             kinds += ["start"] * 4
         k = rng.choice(kinds) if ntr else "start"
@@ -178,6 +185,8 @@ def gen_raw_ops(rng):
             ops.append(("emit", tid, rng.randint(0, 3)))
         elif k == "finish":
             ops.append(("finish", tid))
+        elif k == "half":
+            ops.append(("half", tid))
         elif k == "fail":
             ops.append(("fail", tid, rng.randint(0, 2)))
         elif k == "fetch":
@@ -231,6 +240,8 @@ def run_raw_ops(ops):
                 b.emit(op[1], op[2])
             elif op[0] == "finish":
                 b.finish(op[1])
+            elif op[0] == "half":
+                b.half(op[1])
             elif op[0] == "fail":
                 b.fail(op[1], op[2])
             elif op[0] == "fetch":
@@ -384,7 +395,9 @@ class Policy:
                     x = self.rng.random()
                     y = self.rng.random()
                     mid = "" if self.sim else "mid_" if y < self.p.get("p_mid", 0.15) else "post_" if y < self.p.get("p_mid", 0.15) + self.p.get("p_post", 0.1) else ""
-                    if x < 0.6:
+                    if not self.sim and not mid and self.rng.random() < self.p.get("p_half", 0.08):
+                        w.append(["half", tid, 0])     # this poll sees the begun line; a later write completes it
+                    elif x < 0.6:
                         w.append([mid + "emit", tid, self.rng.randint(0, 3)])
                     elif x < 0.85:
                         w.append([mid + "finish", tid, 0])
@@ -444,6 +457,8 @@ def run_tuner_generic(case):
             timeline.append(("result", c[1], c[2], c[3]))
             continue
         cur_poll = None
+        if c[0] == "half":
+            continue
         if c[0] in ("emit", "finish", "fail"):
             evs.append((c[0], c[1], c[2]) if c[0] != "finish" else ("finish", c[1]))
         elif c[0] == "start":
@@ -1131,7 +1146,7 @@ def tabular_cases(ctx, replay):
             times, style = gen_times(rng, n)
             cases.append(dict(kind="tabular", levels=levels, paused=paused, ckpt=rng.random() < 0.7,
                               with_result=rng.random() < 0.9, times=times, style=style))
-    terms, meta = [], []
+    terms, meta, fterms, fmeta = [], [], [], []
     for case in cases:
         levels = case["levels"]
         times = case.get("times") or [1.5 * (i + 1) for i in range(len(levels))]
@@ -1162,6 +1177,15 @@ def tabular_cases(ctx, replay):
         ctx.h("tabular_time_column", case.get("style", "plain"))
         # the times handed to the simulator decide the order in which the results arrive: strictly increasing
         el = [float(r["elapsed"]) for r in res]
+        from fractions import Fraction
+        skip = eff is not None and case["ckpt"]
+        off = Fraction(0)
+        if skip and eff in levels:
+            off = Fraction(times[levels.index(eff)])
+        raw = [Fraction(t) - off for l, t in zip(levels, times) if not skip or l > eff]
+        if res:
+            fterms.append("((%s, %s) : fix_case)" % (lst([q(x) for x in raw]), lst([q(x) for x in el])))
+            fmeta.append(dict(case, raw=[float(x) for x in raw], impl_elapsed=el))
         if any(b <= a for a, b in zip(el, el[1:])) or (el and el[0] <= 0):
             ctx.violation("property", "elapsed times %s handed to the simulator for the table column %s are not increasing: the results "
                           "of the job arrive out of order" % (el, times), case=case,
@@ -1176,6 +1200,9 @@ def tabular_cases(ctx, replay):
                                            lst(["(%s, %s)" % (zlit(a), zlit(b)) for a, b in impl])))
         meta.append(dict(case, impl=impl))
     if terms:
+        for i in ctx.coq_bad_cases("fix", IMPORTS, PRELUDE, "chk_fix", fterms, shard=300):
+            ctx.violation("correspondence", "model mono_fix differs from the elapsed times the blackbox backend hands to the simulator",
+                          case=fmeta[i], failing_input=False, broken="correspondence chk_fix (model/Fetch.v mono_fix)")
         for i in ctx.coq_bad_cases("tab", IMPORTS, PRELUDE, "chk_tab", terms, shard=300):
             ctx.violation("correspondence", "model tab_results differs from _run_job_and_collect_results", case=meta[i],
                           failing_input=False, broken="correspondence chk_tab (model/Fetch.v tab_results)")
